@@ -6,6 +6,18 @@ static int dead = 0;
 struct Probe { int x; };
 static void Probe_Del(var self) { dead++; }
 var Probe = Cello(Probe, Instance(New, NULL, Probe_Del));
+/* ownership link swept in one sweep: the owner's destructor deletes what it owns (as Box does) */
+static int leaf_made = 0, leaf_dead = 0, owner_dead = 0;
+struct Leaf { int x; }; struct Owner { var leaf; };
+static void Leaf_New(var self, var args) { leaf_made++; }
+static void Leaf_Del(var self) { leaf_dead++; }
+static void Owner_Del(var self) { struct Owner* o = self; owner_dead++; if (o->leaf) del(o->leaf); }
+var Leaf = Cello(Leaf, Instance(New, Leaf_New, Leaf_Del));
+var Owner = Cello(Owner, Instance(New, NULL, Owner_Del));
+static var pairs_worker(var args) {
+  for (int i = 0; i < 200; i++) { struct Owner* o = new(Owner); o->leaf = new(Leaf); }
+  return NULL;       /* nothing deleted by hand: the thread's collector is torn down at thread exit */
+}
 int main(int argc, char** argv) {
   var x = new(Probe);              /* managed object, allocated while the collector runs */
   stop(current(GC));
@@ -13,5 +25,8 @@ int main(int argc, char** argv) {
   start(current(GC));
   printf("object deleted while the collector was stopped: finalised %d times\n", dead);
   if (dead != 1) { printf("REPRODUCED: del of a managed object while the collector is stopped did not finalise it\n"); return 1; }
+  { var t = new(Thread, $(Function, pairs_worker)); call(t); join(t);
+    printf("worker made %d owner/leaf pairs; at teardown %d owners and %d leaves were finalised\n", leaf_made, owner_dead, leaf_dead);
+    if (leaf_dead != leaf_made || owner_dead != leaf_made) { printf("REPRODUCED: %d of %d owned objects were never finalised (their owner was swept first and its destructor's del() only struck them from the pending list), %d finalised twice or more\n", leaf_made > leaf_dead ? leaf_made - leaf_dead : 0, leaf_made, leaf_dead > leaf_made ? leaf_dead - leaf_made : 0); return 1; } }
   return 0;
 }
